@@ -61,6 +61,7 @@ import (
 	"unicode"
 	"unicode/utf8"
 
+	"cuelang.org/go/internal/verifhook"
 	"cuelang.org/go/mod/module"
 )
 
@@ -697,6 +698,7 @@ func Unzip(dir string, m module.Version, zipFile string) (err error) {
 	if err := os.MkdirAll(dir, 0777); err != nil {
 		return err
 	}
+	verifhook.At("U_Mkdir")
 	for _, zf := range z.File {
 		name := zf.Name
 		if name == "" || strings.HasSuffix(name, "/") {
@@ -710,6 +712,7 @@ func Unzip(dir string, m module.Version, zipFile string) (err error) {
 		if err != nil {
 			return err
 		}
+		verifhook.At("U_Create", name)
 		r, err := zf.Open()
 		if err != nil {
 			w.Close()
@@ -725,6 +728,7 @@ func Unzip(dir string, m module.Version, zipFile string) (err error) {
 		if err := w.Close(); err != nil {
 			return err
 		}
+		verifhook.At("U_Close", name)
 		if lr.N <= 0 {
 			return fmt.Errorf("uncompressed size of file %s is larger than declared size (%d bytes)", zf.Name, zf.UncompressedSize64)
 		}
